@@ -184,6 +184,11 @@ func genCase(prop string, seed uint64, worker, idx int) *Case {
 	case "C14":
 		return genC14(r)
 	case "C06", "C17":
+		if prop == "C06" {
+			if c := zipPairCase(seed, worker, idx); c != nil {
+				return c
+			}
+		}
 		return genBatchCase(prop, r)
 	case "C13":
 		return genC13(r)
